@@ -36,10 +36,10 @@ pub fn plan(prop: &str) -> Option<Plan> {
         "C01" => Plan {
             prop: "C01",
             level: "exploration",
-            quick_runs: 120_000,
-            thorough_runs: 4_000_000,
+            quick_runs: 1_000_000,
+            thorough_runs: 40_000_000,
             chunk: 2_000,
-            builds: &[("checked", 1.0)],
+            builds: &[("checked", 1.0), ("release", 0.25)],
             rule: "one case = one seeded run of the wire simulation with faults OFF: 1-3 producer/consumer pairs, a seeded scheduler interleaving append/snapshot/poll/close on long-lived UperWriter/UperReader objects, zoo types and values drawn by GenReader (valid and unrestricted modes, boundary-biased sizes), deliveries represented exact / with slack bytes / with garbage padding bits. Non-trivial = at least one message was encoded, decoded and compared; distinct = distinct FNV-1a hash of the run's event log (actions, types, value hashes, bit extents).",
             real: &["UperWriter", "UperReader<Bits>", "Bits", "BitBuffer", "PackedRead/PackedWrite", "generated zoo types via asn_to_rust! (tokenizer, parser, resolver, Rust model, generator, attribute macro at build time)"],
             stub: &["transport (in-memory wire)", "allocator accounting wrapper around System"],
@@ -54,8 +54,8 @@ pub fn plan(prop: &str) -> Option<Plan> {
         "C04" => Plan {
             prop: "C04",
             level: "fault_enumeration",
-            quick_runs: 150_000,
-            thorough_runs: 5_000_000,
+            quick_runs: 1_200_000,
+            thorough_runs: 40_000_000,
             chunk: 2_500,
             builds: &[("checked", 1.0), ("release", 0.5)],
             rule: "one case = one seeded run of the wire simulation with faults ON: a producer appends 1-4 zoo messages to one long-lived writer (UPER, 70%), or encodes one protobuf message (20%), or a DER item stream through an io::Write shim (10%); a clean tracing pass (TraceBits) locates flags/indices/length determinants; 1-3 corruptions of swarm-selected kinds hit the delivery (bit flip, declared-length truncation, torn bytes, extension, byte/bit insertion and deletion, overwrite, splice, random bytes, cross-type decode; under the DER reader additionally short reads, EINTR, EOF@k, hard error@k); the consumer decodes the plan twice with different slack beyond the declared length. Oracles: O1 no panic, O2 no abort/stack overflow/hang (child exit status + watchdog), O3 allocation budget 32 MiB + 8192 x input bytes (counting global allocator), O4 no Ok with pos > len and no slack-dependent Ok, O5 accessors callable after a failed read; messages wholly before the first affected bit stay under the exact oracle. Non-trivial = at least one fault actually fired; distinct = distinct event-log hash (delivery hash, per-read outcome and position).",
@@ -69,8 +69,40 @@ pub fn plan(prop: &str) -> Option<Plan> {
             ],
             watchdog_s: 20,
         },
+        "C11" => Plan {
+            prop: "C11",
+            level: "exploration",
+            quick_runs: 3_000_000,
+            thorough_runs: 150_000_000,
+            chunk: 10_000,
+            builds: &[("checked", 1.0), ("release", 0.25)],
+            rule: "one case = one seeded operation history on one bit store (BitBuffer 50%, (&mut [u8], &mut usize) 30%, (&[u8], &mut usize) / Bits 20%) checked operation by operation against a Vec<bool> model: write_bit, the four write_bits* variants, the five read_* variants, with_write_position_at, with_max_read, reset_read_position, clear, set_pos/set_len, from_bits, Bits::from(&BitBuffer). Arguments: sources/destinations of 0-64 bytes with 0x00/0xFF/patterned/random fill, offsets and lengths biased to the (src%8, dst%8, len%8) classes, the bulk threshold (16 bits), exact fit, one bit short. Faults: fixed-slice destinations with too little room (DST-FULL), sources shorter than offset+len (SRC-SHORT), reads at and past the end. Non-trivial = at least two successful operations; distinct = distinct event-log hash (operation, arguments, fit).",
+            real: &["BitBuffer", "Bits", "(&[u8], &mut usize) BitRead", "(&mut [u8], &mut usize) BitWrite", "bit_string_copy / bit_string_copy_bulked"],
+            stub: &["none (the stores are the system; the model is a Vec<bool>)"],
+            assumptions: &[
+                "documented panics (# Panics sections, constructor assert!s) are preconditions and respected",
+                "with_write_position_at is only used to patch bits at already written positions (what UperWriter does); ensure_can_write_additional_bits is treated as an internal reservation helper and not called directly, since reserving necessarily makes the buffer longer than ceil(bit_len/8)",
+                "content and cursor after a failed operation are unspecified: the model re-synchronises from the real store; the BitBuffer length/padding invariant is still checked because the property says 'always'",
+                "the property's 'exhaustive for <= 5 bytes' clause is an enumeration and is not done here; small buffers are sampled more often",
+            ],
+            watchdog_s: 20,
+        },
         _ => return None,
     })
+}
+
+/// ids of domain predicates the generators know about (DESIGN 6)
+static HASH_SAMPLE: std::sync::atomic::AtomicU64 = std::sync::atomic::AtomicU64::new(1);
+
+pub const ALL_DOMAINS: &[&str] = &["D5", "D6", "D7", "D8", "D11", "D12", "D13", "D14"];
+
+impl Finding {
+    fn matches(&self, sig: &str) -> bool {
+        if self.signature_prefix.is_empty() && self.signature_contains.is_empty() {
+            return false;
+        }
+        (self.signature_prefix.is_empty() || sig.starts_with(&self.signature_prefix)) && (self.signature_contains.is_empty() || sig.contains(&self.signature_contains))
+    }
 }
 
 struct Finding {
@@ -78,6 +110,7 @@ struct Finding {
     property: String,
     status: String,
     signature_prefix: String,
+    signature_contains: String,
     replay: Option<String>,
     what: String,
     commit: Option<String>,
@@ -98,6 +131,7 @@ fn load_findings(root: &Path) -> Vec<Finding> {
             property: s("property").unwrap_or_default(),
             status: s("status").unwrap_or_else(|| "open".into()),
             signature_prefix: s("signature_prefix").unwrap_or_default(),
+            signature_contains: s("signature_contains").unwrap_or_default(),
             replay: s("replay"),
             what: s("what").unwrap_or_default(),
             commit: s("commit"),
@@ -249,6 +283,8 @@ fn run_jobs(jobs: Vec<Job>, bins: &Bins, prop: &str, tier: Tier, seed: u64, lift
                 hash_path.display().to_string(),
                 "--watchdog".into(),
                 watchdog_s.to_string(),
+                "--hash-sample".into(),
+                HASH_SAMPLE.load(std::sync::atomic::Ordering::Relaxed).to_string(),
             ];
             if !lifted.is_empty() {
                 args.push("--lift".into());
@@ -362,6 +398,8 @@ fn triage(m: &mut Merged, distinct: &mut HashSet<u64>, shapes: &mut HashSet<u64>
             hash.display().to_string(),
             "--watchdog".into(),
             watchdog_s.to_string(),
+            "--hash-sample".into(),
+            HASH_SAMPLE.load(std::sync::atomic::Ordering::Relaxed).to_string(),
         ];
         if !lifted.is_empty() {
             a.push("--lift".into());
@@ -628,14 +666,18 @@ fn check(args: &[String], root: &Path, bins: &Bins) -> i32 {
     let tmp = root.join("sim/target/tmp").join(format!("{}-{}", prop, std::process::id()));
     let _ = std::fs::create_dir_all(&tmp);
 
+    let total_runs: f64 = plan.builds.iter().map(|b| b.1 * runs as f64).sum();
+    let hash_sample: u64 = if total_runs > 8_000_000.0 { 16 } else { 1 };
+    HASH_SAMPLE.store(hash_sample, std::sync::atomic::Ordering::Relaxed);
     println!("check {prop} {} seed={seed} runs={runs} workers={workers} chunk={chunk}", tier.name());
 
     // known findings
     let findings = load_findings(root);
     let mine: Vec<&Finding> = findings.iter().filter(|f| f.property == prop).collect();
     let lifted: Vec<String> = {
-        // a domain predicate is lifted when its finding is fixed (or no longer listed: then nothing refers to it)
-        let mut l: Vec<String> = findings.iter().filter(|f| f.status == "fixed").map(|f| f.id.clone()).collect();
+        // a domain predicate is in force only while its finding is listed as open; it is lifted (the
+        // domain is explored again) when the entry is marked fixed or removed
+        let mut l: Vec<String> = ALL_DOMAINS.iter().filter(|d| !findings.iter().any(|f| f.status == "open" && f.id == **d)).map(|d| d.to_string()).collect();
         if let Some(extra) = arg_val(args, "--lift") {
             l.extend(extra.split(',').map(str::to_string));
         }
@@ -655,7 +697,7 @@ fn check(args: &[String], root: &Path, bins: &Bins) -> i32 {
         let build = J::parse(&text).ok().and_then(|j| j.get("profile").and_then(J::as_str).map(str::to_string)).unwrap_or_else(|| "checked".into());
         let o = replay_file_in_child(bins.get(&build), &path, plan.watchdog_s);
         let sig = replay_signature(&prop, &o);
-        let still = matches!(&sig, Some(s) if s.starts_with(&f.signature_prefix));
+        let still = matches!(&sig, Some(s) if f.matches(s));
         known_reproduced.push(J::obj().with("id", J::str(f.id.clone())).with("replay", J::str(rp.clone())).with("still_fails", J::Bool(still)).with("signature", sig.clone().map(J::str).unwrap_or(J::Null)));
         if still {
             println!("KNOWN-FINDING: property={prop} {} [{}] (pinned replay {})", f.what, f.id, rp);
@@ -721,7 +763,7 @@ fn check(args: &[String], root: &Path, bins: &Bins) -> i32 {
             m.harness_errors.push(format!("{sig}: {} (run {} build {})", v.detail, v.run, v.build));
             continue;
         }
-        if let Some(f) = mine.iter().find(|f| f.status == "open" && !f.signature_prefix.is_empty() && sig.starts_with(&f.signature_prefix)) {
+        if let Some(f) = mine.iter().find(|f| f.status == "open" && f.matches(sig)) {
             *known_hits.entry(f.id.clone()).or_insert(0) += m.counters.get(&format!("violation.{sig}")).max(1);
             continue;
         }
@@ -817,7 +859,8 @@ fn check(args: &[String], root: &Path, bins: &Bins) -> i32 {
     let coverage = J::obj()
         .with("evaluations", J::u(m.runs))
         .with("distinct_nontrivial", J::u(distinct.len() as u64))
-        .with("rule", J::str(plan.rule))
+        .with("rule", J::str(if hash_sample == 1 { plan.rule.to_string() } else { format!("{} NOTE: with more than 8M runs only event-log hashes with h % {hash_sample} == 0 are collected, so distinct_nontrivial is a measured LOWER BOUND (the distinct hashes in that residue class); distinct_estimate multiplies it by {hash_sample}.", plan.rule) }))
+        .with("distinct_estimate", J::u(distinct.len() as u64 * hash_sample))
         .with("samples", J::Arr(if m.samples.is_empty() { vec![J::str("(no sample recorded)")] } else { m.samples.clone() }))
         .with("nontrivial_runs", J::u(m.nontrivial))
         .with("distinct_shapes", J::u(shapes.len() as u64))
@@ -885,6 +928,7 @@ fn expected_probes(prop: &str) -> &'static [&'static str] {
     match prop {
         "C01" => &["back_to_back_stream>=2", "fragmented_length_seen"],
         "C04" => &["read_failed_then_accessors_called", "truncated_delivery", "EINTR_retried"],
+        "C11" => &["bulk_copy_aligned_branch", "bulk_copy_unaligned_branch", "exact_fit_destination", "read_bit_at_exact_end"],
         _ => &[],
     }
 }
